@@ -86,6 +86,13 @@ func genC17(r *simrt.RNG, tier string, variant int) Plan {
 		p.Ops = append(p.Ops, Op{Kind: "sub", Client: 0, Tok: tok, N: n, GapNs: int64(float64(T) * Pick(r, []float64{0.1, 0.8, 2.5}))})
 		tok++
 	}
+	if p.Family == "healthy-after-reconnect" {
+		if cp.BackoffMin < T/200 {
+			// a redial every millisecond of a long outage only burns steps
+			p.Clients[0].BackoffMin, p.Clients[0].BackoffMax = T/200, T/100
+		}
+		p.Params["down_ns"] = int64(float64(T) * Pick(r, []float64{0, 0, 0.45, 0.8, 1.3, 2.6, 3.15}))
+	}
 	p.Params["gap1"] = int64(float64(T) * Pick(r, []float64{0.5, 3, 20}))
 	p.Params["gap2"] = int64(float64(T) * Pick(r, []float64{0.1, 2, 8}))
 	if p.Family == "blackhole" {
@@ -226,12 +233,39 @@ func runC17(e *Env, p *Plan) {
 	// healthy family
 	allowed := 1
 	if p.Family == "healthy-after-reconnect" {
+		// optionally the server stays unreachable for a while (from well below to
+		// several times the timeout), so that the new connection is installed at
+		// an arbitrary moment relative to whatever timers the old one left behind
+		down := dur(p.Param("down_ns", 0))
+		if down > 0 {
+			e.N.SetDown(p.Servers[0].Addr, true)
+		}
 		e.N.Inject(0, "rst", "both", 0)
+		if down > 0 {
+			e.S.Sleep(down)
+			e.N.SetDown(p.Servers[0].Addr, false)
+			e.Probe("reconnect-after-outage")
+		}
 		if !e.S.Settle(2*T + 4*dur(p.Clients[0].BackoffMax) + time.Second) {
 			return
 		}
-		if len(e.N.Dials()) < 2 {
+		okDials, lastOK := 0, time.Duration(0)
+		for _, d := range e.N.Dials() {
+			if d.Outcome == "ok" {
+				okDials++
+				if okDials == 3 {
+					lastOK = d.At
+				}
+			}
+		}
+		if okDials < 2 {
 			e.Violate("C17.silent-peer-detected", "the connection was reset but the client did not reconnect within 2*timeout")
+			return
+		}
+		if okDials > 2 {
+			// one reset, one new connection: a further successful dial means the
+			// re-established (healthy) link was dropped again
+			e.Violate("C17.healthy-link-kept", "after one reset the client established %d connections (timeout=%v ping=%v server-ping=%v backoff=%v outage=%v): the reconnected healthy link was dropped, redial at %v", okDials, T, P, dur(p.Servers[0].PingNs), dur(p.Clients[0].BackoffMin), down, lastOK)
 			return
 		}
 		allowed = len(e.N.Dials())
